@@ -181,6 +181,30 @@ theorem reader_refines_spec (O : Oracles) (fileName text : Bytes) :
   · unfold Spec.Format.read
     rw [h2, lines_eq]; rfl
 
+/-- **ignored_lines_inert.** Inserting a line that the format ignores (blank, foreign text,
+a bare `Benchmark<name>` announcement, a would-be key with upper case or blanks, …) anywhere
+in the input changes nothing but line numbers: the records before it are untouched, the
+records after it are the same records with their line number increased by one — same names,
+values, configuration (slot order included), errors, unit metadata. Read from right to left
+this is deletion. Holds from every reader state, hence at any position of any file. -/
+theorem ignored_lines_inert (O : Oracles) (st : RState) (before after : List Bytes) (l : Bytes)
+    (h : classify O l = .ignored) :
+    readLines O st (before ++ after) =
+      readLines O st before ++ readLines O (finalState O st before) after ∧
+    readLines O st (before ++ l :: after) =
+      readLines O st before ++ (readLines O (finalState O st before) after).map (Rec.bump 1) := by
+  refine ⟨readLines_append O before after st, ?_⟩
+  rw [readLines_append]
+  congr 1
+  simp only [readLines, scanLine_ignored O _ l h, List.nil_append]
+  exact readLines_sim O 1 after ⟨rfl, rfl, rfl, rfl⟩
+
+/-- Non-vacuity: a blank line, `PASS`, `BenchmarkFoo` alone and `Key: v` are ignored lines
+(for every choice of parameters that agrees with ASCII). -/
+example : ∀ l ∈ [[], [80, 65, 83, 83], benchmarkPrefix ++ [70, 111, 111], [75, 101, 121, 58, 32, 118]],
+    classify ⟨UC.ascii, fun _ => .error .syntax, fun _ => .error .syntax, fun v u => (v, u)⟩ l = .ignored := by
+  decide
+
 /-- **scan_iterates.** `Scan`/`Result` with the `q`/`qPos` queue is an iterator over
 `readLines`: with `pending r` = the unread part of the queue followed by the records of the
 unread lines, a successful `Scan` delivers the head of `pending` and leaves its tail, and `Scan`
@@ -212,6 +236,14 @@ theorem scan_iterates (O : Oracles) (r : Reader) :
 /-- The queue model started on a text has exactly `readAll` pending. -/
 theorem pending_new (O : Oracles) (fileName text : Bytes) :
     Reader.pending O (Reader.new text fileName) = readAll O fileName text := rfl
+
+/-- **Termination.** Every function of the model is accepted by Lean as structurally recursive
+on the remaining bytes / fields / lines (no `partial`, no well-founded recursion), so the model
+reader terminates on every input. The one fuel parameter (in `fields`, bounded by the length of
+the line plus one) is never exhausted: any larger fuel gives the same fields. -/
+theorem fields_fuel_sufficient (uc : UC) (x : Bytes) (n : Nat) (h : x.length < n) :
+    fieldsN uc n x = fields uc x :=
+  fields_fuel uc x n h
 
 /-! ## Several files through one reader -/
 
